@@ -6,30 +6,53 @@ Require Import Urcu.Futex.Futex.
 Require Import Urcu.Futex.FutexInv.
 Require Import Urcu.Futex.FutexSolo.
 Require Import Urcu.Futex.Waiter.
+Require Import Urcu.Futex.QsbrFutex.
 Import ListNotations.
 
 (* whenever the updater is blocked in FUTEX_WAIT some reader is inside a section or inside its exit/wake-up path (any number of readers and sections, every schedule and flush order, spurious wake-ups) *)
 Theorem C02_gp_no_lost_wakeup_memb :
     forall (n : nat) (cs : list Futex.choice) (inp : list nat),
-    let s := run n cs (FutexInv.init n inp) in
-    blocked (up s) = true -> exists r : nat, midb (rp (rd s r)) = true \/ rp (rd s r) = R_Wake.
+    let s := Futex.run n cs (FutexInv.init n inp) in
+    blocked (Futex.up s) = true ->
+    exists r : nat, midb (Futex.rp (rd s r)) = true \/ Futex.rp (rd s r) = R_Wake.
 Proof. exact (@Urcu.Futex.FutexInv.gp_no_lost_wakeup_memb_multi). Qed.
 Print Assumptions C02_gp_no_lost_wakeup_memb.
 
 (* once every reader is between sections with an empty buffer, the updater alone finishes its wait within mu steps and never sleeps *)
 Theorem C02_gp_solo_terminates :
     forall (n m : nat) (s : Futex.st),
-    Inv n s -> quiescent s -> mu (up s) <= m -> up (usolo n m s) = U_Done.
+    FutexInv.Inv n s -> quiescent s -> mu (Futex.up s) <= m -> Futex.up (usolo n m s) = U_Done.
 Proof. exact (@Urcu.Futex.FutexSolo.gp_solo_terminates). Qed.
 Print Assumptions C02_gp_solo_terminates.
 
 (* urcu-wait.h node protocol: waker never touches the node after the waiter returned; a blocked waiter still has its wake-up coming; waiter returns only after TEARDOWN *)
 Theorem C02_waiter_handshake :
-    forall cs : list choice,
-    let s := fold_left (fun (s : st) (c : choice) => exec c s) cs init in
+    forall cs : list Waiter.choice,
+    let s := fold_left (fun (s : Waiter.st) (c : Waiter.choice) => exec c s) cs init in
     bad s = false /\
     (ap s = A_Blocked -> kp s = K_Set \/ kp s = K_LoadR \/ kp s = K_Wake) /\
     (ap s = A_Done -> kp s = K_Done /\ kbuf s = []).
 Proof. exact (@Urcu.Futex.Waiter.waiter_handshake). Qed.
 Print Assumptions C02_waiter_handshake.
+
+(* qsbr waiting-flag / futex handshake, one pass of wait_for_readers from ANY reader configuration (readers anywhere in the wake-up path of an earlier pass, stale flags), every schedule, spurious wake-ups allowed: whenever the updater is asleep and not woken, some reader is still short of the end of its quiescent-state announcement (it will wake the updater or find the futex word reset by one that will) *)
+Theorem C02_qsbr_no_lost_wakeup :
+    forall (inp0 : list nat) (s0 : st) (cs : list choice),
+    NoDup inp0 ->
+    upc s0 = U0 ->
+    let s := run inp0 cs s0 in
+    upc s = U7 ->
+    woken s = false ->
+    exists r : nat, rpc s r <> RDone /\ (waker (rpc s r) \/ futex s = true /\ In r inp0 /\ inp s r = true).
+Proof. exact (@Urcu.Futex.QsbrFutex.qsbr_no_lost_wakeup). Qed.
+Print Assumptions C02_qsbr_no_lost_wakeup.
+
+(* hence, once every reader has completed its announcement, the updater is not left asleep *)
+Theorem C02_qsbr_all_done_not_asleep :
+    forall (inp0 : list nat) (s0 : st) (cs : list choice),
+    NoDup inp0 ->
+    upc s0 = U0 ->
+    let s := run inp0 cs s0 in (forall r : nat, rpc s r = RDone) -> upc s = U7 -> woken s = true.
+Proof. exact (@Urcu.Futex.QsbrFutex.qsbr_all_done_not_asleep). Qed.
+Print Assumptions C02_qsbr_all_done_not_asleep.
 
